@@ -1,5 +1,5 @@
-// C20: mpf_class (placeholder, filled in below)
+// C20: operator<< of mpf_class against the standard library's operator<< on the equal double (filled in below)
 #include <cstdio>
 #include "mpirxx.h"
 extern FILE *out;
-void mpf_section(void) {}
+void mpf_stream_section(void) {}
